@@ -58,6 +58,9 @@ inductive Variants where
   | cons (name : String) (isUnit : Bool) (fields : TyList) (rest : Variants)
 end
 
+deriving instance DecidableEq for Ty, TyList, Fields, Variants
+deriving instance Repr for Ty, TyList, Fields, Variants
+
 mutual
 inductive Val where
   | bool (b : Bool)
